@@ -66,8 +66,40 @@ def core_entries():
     return files
 
 
+def make_out_dir(path):
+    """the directory (relative to the repository) that `make sources FLOOGEN_CFG=<path>` hands to floogen with its
+    default settings: read from a dry run of the project's own Makefile, so that whatever it computes the directory from
+    is followed (fail closed when the recipe no longer shows one floogen call for this description)"""
+    import shlex
+    import subprocess
+    env = {k: v for k, v in os.environ.items() if not k.startswith(("FLOO", "MAKE", "MFLAGS"))}
+    r = subprocess.run(["make", "-n", "--no-print-directory", "-C", common.REPO, "sources", "FLOOGEN_CFG=" + path],
+                       capture_output=True, text=True, timeout=60, env=env)
+    if r.returncode != 0:
+        raise RuntimeError(f"make -n sources FLOOGEN_CFG={path}: rc {r.returncode}: {r.stderr.strip()[-300:]}")
+    hits = []
+    for line in r.stdout.splitlines():
+        try:
+            toks = shlex.split(line)
+        except ValueError:
+            continue
+        if "-c" in toks and toks[toks.index("-c") + 1: toks.index("-c") + 2] == [path]:
+            if toks.count("-o") + toks.count("--outdir") != 1:
+                raise RuntimeError(f"make -n sources: no single output directory in `{line}`")
+            k = toks.index("-o") if "-o" in toks else toks.index("--outdir")
+            hits.append(toks[k + 1])
+    if len(hits) != 1:
+        raise RuntimeError(f"make -n sources FLOOGEN_CFG={path}: {len(hits)} floogen calls for this description")
+    rel = os.path.relpath(os.path.realpath(os.path.join(common.REPO, hits[0])), os.path.realpath(common.REPO))
+    if rel.startswith(".."):
+        raise RuntimeError(f"make sources writes outside the repository: {hits[0]}")
+    return rel
+
+
 def generated_by_examples():
-    """(description name, example file, [file names written], [modules instantiated by the top])"""
+    """(description name, example file, [paths written, relative to the repository, by the project's own flow `make
+    sources FLOOGEN_CFG=<example>`: the Makefile's output directory joined with the file names the real floogen
+    writes], [modules instantiated by the top])"""
     from harness.worker_cli import run_case
     exs = sorted(glob.glob(os.path.join(common.REPO, "floogen", "examples", "*.yml")))
 
@@ -82,7 +114,8 @@ def generated_by_examples():
             if not fn.endswith("_pkg.sv"):
                 top = svread.read_top(text)
                 mods |= {it["module"] for it in top["items"] if it["k"] == "inst"}
-        return (y["name"], os.path.basename(path), sorted(r["files"]), sorted(mods))
+        outdir = make_out_dir(path)
+        return (y["name"], os.path.basename(path), sorted(os.path.join(outdir, f) for f in r["files"]), sorted(mods))
     with ThreadPoolExecutor(max_workers=6) as ex:
         return list(ex.map(one, exs))
 
@@ -136,7 +169,7 @@ def generate_facts():
          "Definition bender_files : list (list string * string) := [" + "; ".join("([" + "; ".join(q(a) for a in at) + "], " + q(f) + ")" for at, f in bfiles) + "].",
          "Definition bender_dirs : list string := [" + "; ".join(q(d) for _, d in bdirs) + "].",
          "Definition core_files : list (string * string) := [" + "; ".join("(" + q(fs) + ", " + q(f) + ")" for fs, f in cfiles) + "].",
-         "(* (description name, file written by the real floogen for a shipped example with that name) *)",
+         "(* (description name, path -- relative to the repository -- that `make sources` writes for a shipped example with that name: the Makefile's output directory (dry run) joined with the file name the real floogen writes) *)",
          "Definition generated_names : list (string * string) := [" + "; ".join(sorted({"(" + q(n) + ", " + q(f) + ")" for n, _, fs, _ in gen for f in fs})) + "].",
          "Definition module_file : list (string * string) := [" + "; ".join("(" + q(m) + ", " + q(f) + ")" for m, f in sorted(defs.items())) + "].",
          "Definition inst_edges : list (string * string) := [" + "; ".join("(" + q(a) + ", " + q(b) + ")" for a, b in edges) + "].",
